@@ -237,6 +237,17 @@ def observe(text, content, by_path=False, by_fd=False):
         for i, mem in enumerate(s.members):
             for fld in ('mnem', 'unit', 'valu', 'desc'):
                 obs[(s.type, i, fld)] = L.tag(getattr(mem, fld))
+    # the list of mnemonics of a section is the caller's once handed out: reversed and extended by the caller, the next one is as before
+    for s_ in sections:
+        if s_.type != 'A' and hasattr(s_, 'mnemonics'):
+            first = list(s_.mnemonics())
+            mine = s_.mnemonics()
+            mine.reverse()                      # same length, another order
+            second = list(s_.mnemonics())
+            mine = s_.mnemonics()
+            mine.append('ZZZ')                  # another length
+            if second != first or list(s_.mnemonics()) != first or first != [m.mnem for m in s_.members]:
+                obs[(s_.type, 'mnemonics')] = ('str', 'mnemonics() %r after the caller changed the list it was given; lines %r' % (list(s_.mnemonics()), [m.mnem for m in s_.members]))
     # lookup by mnemonic text, as a user of the API would do: las[section][mnemonic]
     for sname, lines in (('W', content['well']), ('C', content['curves']), ('P', content['params'] or [])):
         if not las.has_section(sname):
